@@ -142,7 +142,7 @@ func runC10Bounds(c *Ctx) map[*ssa.Function][]string {
 	}
 	c.Note("C10-D1 scope: %d functions (%d obligations in parser/json); cut: %d application-side functions", len(fns), nDecoder, len(c10Cut))
 	if nDecoder < 60 {
-		anchorFail("C10-D1: only %d obligations found in parser/json (expected at least 60)", nDecoder)
+		c.Undecided("C10-D1: only %d obligations found in parser/json (expected at least 60)", nDecoder)
 	}
 	for _, ct := range c10Cut {
 		c.Note("C10-D1 cut %s.%s: %s", ct.pkg, ct.fn, ct.reason)
@@ -296,7 +296,7 @@ func runC10(c *Ctx) {
 		}
 	}
 	if nDecode < 7 {
-		anchorFail("C10: found %d decode(...) call sites in package sio, expected 7", nDecode)
+		c.Undecided("C10: found %d decode(...) call sites in package sio, expected 7", nDecode)
 	}
 
 	// reflect.Value.Call under recover
@@ -314,7 +314,7 @@ func runC10(c *Ctx) {
 			}
 		}
 		if n < 3 {
-			anchorFail("C10-D2: found %d reflect.Value.Call sites on the receive path, expected at least 3", n)
+			c.Undecided("C10-D2: found %d reflect.Value.Call sites on the receive path, expected at least 3", n)
 		}
 	}
 
@@ -457,7 +457,7 @@ func runC10(c *Ctx) {
 				}
 			}
 			if n == 0 {
-				anchorFail("C10-D6: no store to ackHandler.%s found", fld)
+				c.Undecided("C10-D6: no store to ackHandler.%s found", fld)
 			}
 		}
 		chk := CallsTo(Calls(nah), `sio\.checkAckFunc`)
@@ -721,7 +721,7 @@ func c10NoReentry(c *Ctx) {
 			}
 		}
 		if n == 0 {
-			anchorFail("C10-D8: %s does not lock parserMu (lock not recognised)", fnn)
+			c.Undecided("C10-D8: %s does not lock parserMu (lock not recognised)", fnn)
 		}
 	}
 }
